@@ -78,7 +78,7 @@ ASSUMPTIONS = ['xs:redefine is not generated', 'attribute groups (xs:attributeGr
 
 KNOWN_ID = 'C14-F0'
 FINDINGS = VERIF / 'notes' / 'findings' / 'C14.json'
-FUEL = 4000
+FUEL = 1500            # states of the inclusion oracle per pair (quick tier; thorough: 3000, set in run); exhaustion = unknown
 FUEL_OC = 500          # open content: interleaving with a wildcard multiplies the derivative pairs
 KNOWN_SEEN: list[list[str]] = []      # every pair matched by C14-F0 on this run (v, base, derived)
 
@@ -881,6 +881,8 @@ def witness_oc(ctx: Ctx) -> None:
 
 
 def run(ctx: Ctx, driver_ok: bool) -> None:
+    global FUEL
+    FUEL = ctx.pick(1500, 3000)
     register_findings(ctx)
     ctx.extra['zero_occurs_and_empty_group_clauses'] = 'repaired' if c14.detect_repaired() else 'pinned'
     drv = Driver('drv_c14') if driver_ok else None
